@@ -28,12 +28,12 @@ func cmdKSoilTemp(args []string) error {
 	}
 	defer w.Close()
 	bds := []float64{0.8, 1.1, 1.5, 1.9}
-	hums := []float64{0, 0.02, 0.103}
+	hums := []float64{0, 0.02, 0.103, 0.344, 0.57} // humus as a mass fraction (organic carbon x 1.72): mineral soils to fen peat
 	wgs := []float64{0.01, 0.1, 0.3, 0.5, 0.7}
 	ns := []int{2, 5, 20}
 	if *fine {
 		bds = []float64{0.8, 0.9, 1.0, 1.1, 1.2, 1.3, 1.4, 1.5, 1.6, 1.7, 1.8, 1.85, 1.9}
-		hums = []float64{0, 0.005, 0.01, 0.02, 0.05, 0.08, 0.103, 0.172}
+		hums = []float64{0, 0.005, 0.01, 0.02, 0.05, 0.08, 0.103, 0.172, 0.258, 0.344, 0.43, 0.57, 0.69}
 		wgs = []float64{0.005, 0.01, 0.03, 0.05, 0.1, 0.2, 0.3, 0.4, 0.5, 0.6, 0.7}
 		ns = []int{1, 2, 3, 5, 10, 20}
 	}
